@@ -193,7 +193,9 @@ Edited(t) == last' = [kind |-> "edit", t |-> t]
 
 EditInput(t, n, c) ==
   /\ "EditInput" \in Acts /\ Step /\ n \in InFiles[t] /\ c # files[t][n]
-  /\ (c = "absent" => t \in GlobT)
+  \* a file disappears: under a glob it stops being an input; a literally declared input stays declared ("EditAbsent": the
+  \* loader accepts a declared input that does not exist, the hashing skips its content)
+  /\ (c = "absent" => (t \in GlobT \/ "EditAbsent" \in Acts))
   /\ files' = [files EXCEPT ![t][n] = c] /\ Edited(t)
   /\ UNCHANGED <<src, alias, platform, ws, ext, results, blobs, taint>>
 \* bytes move from the end of the first input file (in name order) to the start of the second; the concatenation is unchanged
